@@ -127,7 +127,11 @@ def minc_case():
         return {'k': 'minc', 'rc': rc, 'vf': vf, 'nfp': nfp, 'spacing': spacing,
                 'select': draw(st.one_of(st.none(), st.lists(st.integers(0, 200), min_size=1, max_size=8))),
                 'boundary': draw(st.sampled_from(['none', 'zero', 'huge', 'both'])),
-                'host_standin': draw(st.booleans())}
+                'host_standin': draw(st.booleans()),
+                # the grid may have been put in another block order before MINC is applied
+                'pre': draw(st.sampled_from(['none', 'none', 'reverse', 'rotate', 'demote-first'])),
+                # the embedded grid may itself come from a geometry, with atmosphere blocks (of a small volume)
+                'sub': draw(st.sampled_from(['blocks', 'blocks', 'geo-atm0', 'geo-atm1', 'geo-atm2']))}
     return s()
 
 
@@ -294,6 +298,14 @@ def run_minc(case, R):
     nb = grid.num_blocks
     if case['boundary'] in ('zero', 'both') and nb > 1: grid.blocklist[-1].volume = 0.0
     if case['boundary'] in ('huge', 'both') and nb > 2: grid.blocklist[1].volume = 1e30
+    pre = case.get('pre', 'none')
+    if pre != 'none' and nb > 1:
+        R.label('minc:after-' + pre)
+        order = [b.name for b in grid.blocklist]
+        with R.lib('pre-' + pre):
+            if pre == 'reverse': grid.reorder(order[::-1])
+            elif pre == 'rotate': grid.reorder(order[nb // 2:] + order[:nb // 2])
+            else: grid.demote_block(order[:max(1, gg.num_atmosphere_blocks)])
     sel = None
     if case['select'] is not None:
         sel = list(dict.fromkeys(grid.blocklist[i % nb].name for i in case['select']))
@@ -352,6 +364,16 @@ def run_minc(case, R):
         s2 = t2grids.t2block('Zz 99', 0.5, sub.rocktypelist[0], centre=[0., 0., 1.])
         sub.add_block(s1); sub.add_block(s2)
         sub.add_connection(t2grids.t2connection([s1, s2], 1, [0.1, 0.2], 1.0, 0.0))
+        subvol = 0.75
+        if case.get('sub', 'blocks') != 'blocks' and not any(n[2] in 'XY' or n == 'SUBAT' for n in vols_before):
+            # a sub-grid converted from its own little geometry: two columns, two layers, atmosphere blocks of volume 0.1
+            at = int(case['sub'][-1])
+            R.label('embed:sub-grid-from-geometry:atmosphere-type-%d' % at)
+            gs = mulgrids.mulgrid().rectangular([0.5, 0.25], [0.5], [0.5, 0.25], atmos_type=at, chars='XY')
+            gs.atmosphere_volume = 0.1
+            sub = t2grids.t2grid().fromgeo(gs, {'ATM 0': 'SUBAT'})
+            s1 = sub.blocklist[-1]
+            subvol = sum(float(b.volume) for b in sub.blocklist)
         # embed() resolves the connection's blocks by name: the host block may be given as the grid's own object
         # or as a stand-in block of the same name (e.g. taken from a second grid built from the same geometry)
         hostarg = host
@@ -366,7 +388,7 @@ def run_minc(case, R):
             R.label('embed')
             # documented: the sub-grid's volume is taken out of the host block (and of no other block)
             for n, v in vols_before.items():
-                exp = v - 0.75 if n == host.name else v
+                exp = v - subvol if n == host.name else v
                 R.check(abs(float(res.block[n].volume) - exp) <= 1e-12 * max(abs(v), 1.0), 'embed:host-volume',
                         'block %r volume %r -> %r (host is %r)' % (n, v, res.block[n].volume, host.name))
 
